@@ -26,7 +26,7 @@ RULE = ("Hypothesis: a base scene (C01/C02 scene families for all 100 "
 ASSUMPTIONS = ["EPA compared only when both calls report success on a proper tetrahedron simplex",
                "primitive functions: swap only for functions whose two arguments have the same kind"]
 N = {"quick": 10, "thorough": 400}
-N_PRIM = {"quick": 30, "thorough": 1500}
+N_PRIM = {"quick": 60, "thorough": 2500}
 SMOOTH_UNIQUE = {"sphere", "ellipsoid"}
 
 
@@ -71,7 +71,7 @@ def _narrow_case(draw, a, b):
 def _prim_case(draw, fname):
     k1, k2 = prim.FUNCTIONS[fname]
     g = draw(_g(allow_swap=(k1 == k2)))
-    fam = draw(st.sampled_from(["free", "shared", "touch", "inside"]))
+    fam = draw(st.sampled_from(["free", "shared", "shared", "touch", "inside", "lattice"]))
     base = draw(prim.pair_case(fname, fam))
     return {"base": base, "g": g}
 
